@@ -66,6 +66,14 @@ def run(crate_key, prefixes, timeout=3000):
             tests.setdefault(m.group(1), dict(test=m.group(1), status='ok', cases=0, failures=[]))['cases'] = int(m.group(2))
         for m in re.finditer(r'^VXFAIL (\w+): (.*)$', out, re.M):
             tests.setdefault(m.group(1), dict(test=m.group(1), status='failed', cases=0, failures=[]))['failures'].append(m.group(2))
+        mab = re.search(r"(memory allocation of \d+ bytes failed|process didn't exit successfully[^\n]*\(signal: \d+[^\n]*\)|has overflowed its stack|SIGSEGV|SIGABRT)", out)
+        if mab:
+            # the test process died: every harness test that was selected but has no result line is charged with the abort
+            started = set(re.findall(r'^vx_harness (\w+):', out, re.M)) | set(tests)
+            listed = set(re.findall(r'fn (\w+)\(\)', open(os.path.join(VERIF, 'harness', crate_key, 'vx_harness.rs')).read()))
+            cand = [n for n in listed if any(n.startswith(p_) for p_ in prefixes) and (n not in tests)]
+            for n in cand:
+                tests[n] = dict(test=n, status='failed', cases=0, failures=['test process aborted while this bounded check was running: ' + mab.group(1)])
         for name, t in tests.items():
             if t['status'] == 'failed' and not t['failures']:
                 mm = re.search(r"thread 'vx_harness::%s'[^\n]*panicked at ([^\n]*)\n([^\n]*)" % name, out)
